@@ -121,6 +121,14 @@ impl Summary {
     /// This function will return an error if the other Summary was not created with the same
     /// parameters.
     pub fn merge(&mut self, other: &Summary) -> Result<(), MergeError> {
+        // An empty summary (e.g. one that only ever saw infinite values, which `add` ignores) has
+        // nothing to contribute.  `DDSketch::merge` would nevertheless take over its initial
+        // min/max (+inf/-inf) whenever this summary holds no positive value, after which
+        // `quantile(0.0)`/`quantile(1.0)` report +inf/-inf for a non-empty summary.
+        if other.is_empty() {
+            return Ok(());
+        }
+
         self.sketch.merge(&other.sketch).map_err(|_| MergeError {})?;
         Ok(())
     }
